@@ -1055,9 +1055,23 @@ def unraw_rule(syn, prop, rule="C04.R3"):
 
 
 def quoted_sink_rule(syn, prop, rule="C04.R4"):
-    r = Result(rule, "user-controlled strings (tag, content, rename / variant names, property names) interpolated between double quotes pass an escaping routine; none exists, so every quoted sink is reported per function")
-    esc_fns = [f for f in syn.fns_in("macros/src") if re.search(r"escape", f["name"])]
+    r = Result(rule, "every user-controlled string interpolated between double quotes (tag, content, variant / type names, property names that need quoting) is escaped: by an escape routine applied in the sink expression, by a shadowing `let v = <escape routine>(..)` before the template, or - for tag/content - once where the container attributes are read")
+    esc_fns = {f["name"] for f in syn.fns_in("macros/src") if re.search(r"escape", f["name"])}
+    # central sanitisation of container tag/content
+    central = {}
+    for x, fsuf in (("EnumAttr", "attr/enum.rs"), ("StructAttr", "attr/struct.rs")):
+        fn = syn.fn("%s::from_attrs" % x, fsuf)
+        got = set()
+        for e in (S.events(fn, "assign") if fn else []):
+            lhs = S.squash(e["lhs"])
+            if lhs in ("result.tag", "result.content") and any(n + "(" in S.squash(e["rhs"]) for n in esc_fns):
+                got.add(lhs.split(".")[1])
+        central[x] = got
+        r.inst(attr=x, escaped_when_read=sorted(got))
+    tag_ok = "tag" in central.get("EnumAttr", ()) and "tag" in central.get("StructAttr", ())
+    content_ok = "content" in central.get("EnumAttr", ())
     per_fn = {}
+    n_sinks = 0
     for fn in syn.fns:
         if not fn["file"].startswith("macros/src/types/") and fn["file"] != "macros/src/utils.rs":
             continue
@@ -1083,26 +1097,38 @@ def quoted_sink_rule(syn, prop, rule="C04.R4"):
                     calls = [(toks[0], args)]
             for lit, args in calls:
                 v = S.unquote(lit) or ""
-                # which slots sit between double quotes?
-                slots = [m.start() for m in re.finditer(r"\{\w*\}", re.sub(r"\{\{|\}\}", "##", v))]
                 vv = re.sub(r"\{\{|\}\}", "##", v)
                 k = 0
                 for m in re.finditer(r"\{(\w*)\}", vv):
                     quoted = m.start() > 0 and vv[m.start() - 1] == '"' and m.end() < len(vv) and vv[m.end()] == '"'
-                    if quoted:
-                        arg = "".join(S.flat(args[k])) if k < len(args) and not m.group(1) else m.group(1)
-                        escaped = any(f["name"] in arg for f in esc_fns)
-                        if not escaped:
-                            per_fn.setdefault(fn["qual"], []).append((e["line"], arg, v))
+                    arg = ("".join(S.flat(args[k])) if k < len(args) else "") if not m.group(1) else m.group(1)
                     if not m.group(1):
                         k += 1
+                    if not quoted:
+                        continue
+                    n_sinks += 1
+                    how = None
+                    if any(n + "(" in arg for n in esc_fns):
+                        how = "escape routine in the sink expression"
+                    var = arg.lstrip("#") if re.match(r"^#?\w+$", arg) else None
+                    if how is None and var:
+                        lets = [x for x in S.events(fn, "let") if S.squash(x["pat"]) == var and x["seq"] < e["seq"]]
+                        if lets and any(n + "(" in S.squash(lets[-1]["init"]) for n in esc_fns):
+                            how = "shadowed by `let %s = %s`" % (var, lets[-1]["init"][:40])
+                        elif not lets and var == "tag" and tag_ok:
+                            how = "container tag escaped in from_attrs"
+                        elif not lets and var == "content" and content_ok:
+                            how = "container content escaped in from_attrs"
+                    r.inst(fn=fn["qual"], where="%s:%s" % (fn["file"], e["line"]), sink=arg, literal=v[:40], escaped_by=how)
+                    if how is None:
+                        per_fn.setdefault(fn["qual"], []).append((e["line"], arg, v))
     for q, lst in sorted(per_fn.items()):
         fn = [f for f in syn.fns if f["qual"] == q][0]
-        r.inst(fn=q, quoted_sinks=len(lst), samples=[{"line": l, "arg": a, "literal": v} for l, a, v in lst[:4]])
         r.fail(prop, "unescaped-quoted-sink %s x%d" % (q, len(lst)),
                "%d interpolation(s) between double quotes without escaping (e.g. %s at line %d): a `\"` or `\\` in a rename/tag/content string breaks the string literal in the generated .ts" % (len(lst), lst[0][1], lst[0][0]),
                fn["file"], lst[0][0])
-    r.floor = 3
+    r.stats = {"quoted_sinks": n_sinks}
+    r.floor = 25
     return r
 
 
